@@ -214,7 +214,9 @@ def run(ck):
          'CONSTRAINT AtStart\nINVARIANT Dump\n') % ('DlsSome' if quick else 'DlsAll')
     ck.tlc('ArcLattice', d, workers=1, coverage=False, on_case=on_arc, timeout=3000)
     ck.sample('arc', {'arc': {'r': [5, 3], 'phi': 3, 'th': -4, 'dl': 17}, 'crops': 'all lattice step pairs'})
-    for name, p, closed in path_families():
+    disc = [('two-subpaths', sp.Path(sp.Line(0j, 4 + 0j), sp.Line(4 + 0j, 4 + 3j), sp.Line(10 + 1j, 12 + 1j), sp.QuadraticBezier(12 + 1j, 14 + 3j, 12 + 6j)), False),
+            ('three-subpaths', sp.Path(sp.CubicBezier(0j, 1 + 2j, 3 + 2j, 4 + 0j), sp.Line(5 + 5j, 5 + 9j), sp.Line(-3 + 0j, -3 - 2j), sp.Line(-3 - 2j, -7 - 2j)), False)]
+    for name, p, closed in path_families() + disc:
         # reversed(): same points in opposite order, equal length - on a fresh object and on one whose caches are populated
         for warm in (False, True):
             q = sp.Path(*list(p))
@@ -232,6 +234,8 @@ def run(ck):
                 ck.disagree(key='Path.reversed/%s' % ('after-queries' if warm else 'fresh'), site='svgpathtools/path.py:Path.reversed',
                             what='%s: reversed()%s does not traverse the same points in opposite order with equal length' % (name, ' after length()/point()' if warm else ''),
                             case={'family': name, 'warm': warm}, expected='point(T) = original.point(1-T)', observed=[str(rv.point(0.25)), str(q.point(0.75))], driver='path')
+        if not p.iscontinuous():
+            continue            # crops are claimed for continuous paths; disconnected ones only take part in the reversed() check
         lens = [s.length() for s in p]
         tot = sum(lens)
         cum = [sum(lens[:i]) / tot for i in range(len(lens) + 1)]
